@@ -244,7 +244,7 @@ def case_strategy(draw, tier="quick"):
 
 LEGS = [
     Leg(name="shift", run=run_case, strategy=lambda tier: case_strategy(tier),
-        quick=120, thorough=1500, quick_shards=8, thorough_shards=16, nt_floor=0.25,
+        quick=120, thorough=6000, quick_shards=8, thorough_shards=16, nt_floor=0.25,
         rule="4 connection types x 4 synapse types x dt in {1,0.5,1.3,0.1,0.7} x max delay 0..5 steps x homogeneous/"
              "heterogeneous/zero/off-grid per-synapse delays x batch 1-3 x histories of K+2..3K+6 steps (+ mid-run clear); "
              "non-trivial = >= 2 distinct delays, a non-constant spike history and >= 1 read reaching before the start"),
